@@ -3,6 +3,7 @@ import UcantoModel.Model.Enum
 import UcantoModel.Model.Patterns
 import UcantoModel.Model.WorldJson
 import UcantoModel.Model.Http
+import UcantoModel.Model.CarDriver
 /-!
 # Line-protocol driver
 stdin: one case per line, TAB separated: `op  arg1  arg2 …`
@@ -135,9 +136,41 @@ def doChannel (st : String) : String :=
     | .httpError s => s!"httperror:{s}\t-"
   | none => bad "channel args"
 
+open CarDriver in
+def doCar (op : String) (args : List String) (impl : String) : String :=
+  match op, args with
+  | "cardec", [inp] =>
+    match Bytes.ofHex inp with
+    | some b => let m := token b; s!"{if agrees m impl then impl else m.1}\t-"
+    | none => bad "cardec args"
+  | _, rj :: bj :: rest =>
+    match parseList rj, parseBlocks bj with
+    | some roots, some blocks =>
+      let enc := Car.encodeCar roots blocks
+      match op, rest with
+      | "carrt", [] =>
+        let dec := match Car.decodeCar H enc with
+          | .ok r bs e => rootsStr r ++ "|" ++ blocksStr bs e
+          | .headerError => "E"
+          | .foreign _ _ => "foreign"
+        s!"{Bytes.toHex enc}|{dec}\t-"
+      | "cartrunc", [] =>
+        s!"{compareAll ((List.range enc.length).map fun n => enc.take n) impl}\t-"
+      | "carflip", [m] =>
+        match Bytes.ofHex m with
+        | some [mask] => s!"{compareAll ((List.range enc.length).map fun i => flipAt enc i mask) impl}\t-"
+        | _ => bad "mask"
+      | _, _ => bad "car op"
+    | _, _ => bad "car args"
+  | _, _ => bad "car args"
+
 def handle (line : String) : String :=
   match line.splitOn "\t" with
   | ["access", mode, world, spine, checker, _, impl] => doAccess mode world spine checker impl
+  | ["cardec", inp, impl] => doCar "cardec" [inp] impl
+  | ["carrt", r, b, impl] => doCar "carrt" [r, b] impl
+  | ["cartrunc", r, b, impl] => doCar "cartrunc" [r, b] impl
+  | ["carflip", r, b, m, impl] => doCar "carflip" [r, b, m] impl
   | ["handle", ct, acc, body, _] => doHandle ct acc body
   | ["channel", st, _, _] => doChannel st
   | ["serve", mode, world, impl] => doServe mode world impl
